@@ -285,7 +285,8 @@ def main():
                   "enable": "no source hooks in /repo: all observation is through the public API from /verif "
                             "harness processes. PYTESTARCH_VERIF_TRACE=<file> together with `-p harness.pytest_plugin` "
                             "(PYTHONPATH=/verif) makes /verif's pytest plugin wrap Rule.assert_applies from outside, in "
-                            "that pytest process only, and write the repository suite's rule evaluations as a trace",
+                            "that pytest process only, and write the repository suite's rule evaluations and scans as traces; "
+                            "`-p harness.pytest_plugin_layers` does the same for LayerRule.are_named / assert_applies",
                   "baseline_off_cmd": "cd /repo && /venv/bin/python -m pytest -q -p no:cacheprovider --timeout=900",
                   "source_commits": [], "add_only": True},
         "engines": [{"name": "tlc-spec-conformance", "path": "/verif/check",
